@@ -20,7 +20,10 @@ def c_src(i, main=False, bad=False, pp=False):
     s = 'int g%d = %d;\nint f%d(int x) { return x + %d; }\n' % (i, i, i, i)
     if main:
         s += 'int main(void) { return 0; }\n'
-    if bad:
+    if bad == 'codegen':
+        # an error that is only detected while code is being generated, after the whole unit has been parsed
+        s += 'void late%d(void) { 1 = g%d; }\n' % (i, i)
+    elif bad:
         s += '#error stop here\n' if pp else 'int broken( { return }\n'
     return s
 
@@ -79,7 +82,7 @@ def run_scenario(a):
     for i, k in enumerate(combo):
         nm = 'in%d.%s' % (i, k)
         names.append(nm)
-        src = c_src(i, main=(mode == 'link' and i == main_at), bad=(natural == ('syntax', i)), pp=(mode == 'E'))
+        src = c_src(i, main=(mode == 'link' and i == main_at), bad=('codegen' if natural == ('codegen', i) else natural == ('syntax', i)), pp=(mode == 'E'))
         p = os.path.join(d, nm)
         if natural == ('missing', i):
             continue
@@ -194,6 +197,8 @@ def run(ctx):
         for i, kind in enumerate(combo):
             if kind == 'c':
                 nat.append(('syntax', i))
+                if mode != 'E':
+                    nat.append(('codegen', i))
             if not (kind == 's' and mode == 'S'):   # -S never opens .s inputs: their absence is not a failing step
                 nat.append(('missing', i))
             if kind == 'c' and mode != 'E':
